@@ -245,5 +245,10 @@ func famConc(dir string, seed int64, tier string) {
 	}
 	runtime.GOMAXPROCS(runtime.NumCPU())
 	apiLateRegistration(rep, "C19")
+	nrace := 40000
+	if thorough {
+		nrace = 400000
+	}
+	apiRegistrationRace(rep, nrace)
 	rep.write(dir)
 }
